@@ -232,7 +232,10 @@ def cases_C13(rng, tier):
     # inside a protected bstr
     for _ in range(Q(tier, 60, 600)):
         h = enc(gen_header_map(rng, 1), rng)
-        for inner, fam in ((h, "protected-base"), (h + b"\x00", "protected-suffix"), (h[:-1], "protected-prefix")):
+        variants = [(h, "protected-base"), (h + b"\x00", "protected-suffix")]
+        if len(h) > 1:   # the zero-length protected bstr is the (valid) short form of an empty header
+            variants.append((h[:-1], "protected-prefix"))
+        for inner, fam in variants:
             m = enc(A(B(inner), M(), NULL, B(b"")))
             out.append(case("dec", "CoseSign1", m, fam=fam, key=h, strict_err=True))
     for ty in DESC_GEN:
